@@ -493,6 +493,32 @@ pub fn main_async(a: &Args) -> i32 {
     0
 }
 
+pub fn main_cycles(a: &Args) -> i32 {
+    let n: usize = a.extra.iter().position(|x| x == "--n").map(|i| a.extra[i + 1].parse().unwrap()).unwrap_or(3000);
+    let w = World::init(true);
+    let outcomes = isolate::run(1, 1, 3_600_000, |_| {
+        let (v, steps) = e3_hist::run_cycles(&w, n);
+        let j = json!({"steps": steps, "v": v.iter().map(|x| json!({"prop": x.prop, "key": x.key, "step": x.step, "what": x.what})).collect::<Vec<_>>()});
+        (vkit::serde_json::to_vec(&j).unwrap(), false)
+    });
+    let mut viols: Vec<Value> = Vec::new();
+    let mut steps = 0u64;
+    match &outcomes[0] {
+        Outcome::Done(b) => {
+            let v: Value = vkit::serde_json::from_slice(b).unwrap();
+            steps = v["steps"].as_u64().unwrap();
+            for x in v["v"].as_array().unwrap() {
+                viols.push(json!({"prop": x["prop"], "key": x["key"], "step": x["step"], "what": x["what"], "history": [format!("cycles:{n}")]}));
+            }
+        }
+        Outcome::Signal(sig, _) | Outcome::Exit(sig, _) => viols.push(json!({"prop": "C12", "key": format!("cycles-process-died-{sig}"), "step": 0, "what": format!("the process died (signal/status {sig}) during the cycle run"), "history": [format!("cycles:{n}")]})),
+        Outcome::Timeout(_) => viols.push(json!({"prop": "C12", "key": "cycles-hang", "step": 0, "what": "the cycle run did not finish within an hour", "history": [format!("cycles:{n}")]})),
+    }
+    let out = json!({"engine": "e3", "family": "cycles", "mounted": crate::envx::MOUNTED, "cycles": n, "steps": steps, "violations": viols});
+    println!("{}", vkit::serde_json::to_string(&out).unwrap());
+    0
+}
+
 pub fn main() {
     vkit::proc::ensure_no_aslr();
     isolate::quiet_panics();
@@ -501,6 +527,7 @@ pub fn main() {
         "hist" => main_hist(&a),
         "times" => main_times(&a),
         "async" => main_async(&a),
+        "cycles" => main_cycles(&a),
         other => {
             eprintln!("e3: unknown family {other:?}");
             2
